@@ -38,7 +38,6 @@ RvDecidable(rv) ==
           /\ (x.k = "num" /\ x.cls = "fin" => F64Class(F64OfNumeral(x.numeral)) = "fin")
           /\ (x.k = "coord" => F64Class(F64OfNumeral(x.lat)) = "fin" /\ F64Class(F64OfNumeral(x.lng)) = "fin")
           /\ (x.k = "grid" => Len(x.cols) >= 1 /\ \A i, j \in 1..Len(x.cols) : i # j => x.cols[i].name # x.cols[j].name)
-HasOptUriEsc(t) == \E i \in 1..(Len(t) - 1) : t[i] = 92 /\ t[i + 1] \in {58, 47, 63, 35, 91, 93, 64, 38, 61, 59}
 RECURSIVE NoDupMembers(_)
 NoDupMembers(t) ==
     CASE t.j = "obj" -> /\ \A i, j \in 1..Len(t.mem) : i # j => t.mem[i][1] # t.mem[j][1]
